@@ -21,13 +21,16 @@ def clean():
 
 
 demo_txt = open(os.path.join(src, "demo_cmd.txt")).read()
-m = re.search(r"([\w/.\-]*zz_seed_\w+\.go)", demo_txt)
-demo_rel = m.group(1)
-demo_file = [f for f in os.listdir(src) if f.startswith("zz_seed_") and f.endswith(".go")][0]
-if os.path.basename(demo_rel) != demo_file:
-    demo_rel = os.path.join(os.path.dirname(demo_rel), demo_file)
-cmds = [l.strip() for l in demo_txt.splitlines() if l.strip().startswith("go test") or l.strip().startswith("go run")]
-demo_cmd = cmds[-1]
+demo_files = sorted(f for f in os.listdir(src) if f.startswith("zz_seed_") and f.endswith(".go"))
+placement = {}
+for f in demo_files:
+    cands = re.findall(r"([\w./\-]*/)" + re.escape(f), demo_txt)
+    cands = [c for c in cands if not c.startswith("/")]
+    placement[f] = (cands[-1] if cands else "") + f
+cmds = re.findall(r"(go (?:test|run) [^\n;]*)", demo_txt)
+demo_cmd = cmds[-1].strip()
+demo_rel = ", ".join(placement.values())
+demo_file = demo_files[0]
 log = []
 clean()
 ok = True
@@ -39,7 +42,8 @@ log.append("suite with patch: rc=%d" % r.returncode)
 if r.returncode != 0:
     ok = False
     log.append(r.stdout[-1500:])
-shutil.copy(os.path.join(src, demo_file), os.path.join(wt, demo_rel))
+for f, rel in placement.items():
+    shutil.copy(os.path.join(src, f), os.path.join(wt, rel))
 r = sh(demo_cmd, timeout=900)
 log.append("demo with patch: rc=%d (expect != 0)" % r.returncode)
 if r.returncode == 0:
@@ -55,7 +59,7 @@ print(prop, var, "CONFIRMED" if ok else "NOT CONFIRMED", "|", "; ".join(log)[:60
 if ok:
     dst = "/verif/seeded/%s%s" % (prop, var)
     os.makedirs(dst, exist_ok=True)
-    for f in ("patch.diff", demo_file, "demo_cmd.txt"):
+    for f in ["patch.diff", "demo_cmd.txt"] + demo_files:
         shutil.copy(os.path.join(src, f), dst)
     meta = json.load(open(os.path.join(src, "meta.json")))
     meta["confirmed_by"] = ["patch applies and builds in a scratch worktree of /repo HEAD", "go test -vet=off -count=1 ./... passes with the patch",
